@@ -63,7 +63,7 @@ theorem cut_reconnect_state (s : St) (hc : s.conn = .connected) (hr : s.redirect
     (run s cutAndReconnect).1 =
       { s with conn := .connected, encrypted := false, headerSeen := false, wedged := false, listener := .idle,
                streamIdSet := false, streamVersionSet := false, authenticated := false, sessionStarted := false,
-               smEnabled := false, smResumed := false, ackEnabled := false,
+               smEnabled := false, smResumed := false, ackEnabled := false, bind2Bound := false,
                pendingIq := s.pendingIq - (if s.canResume then 0 else s.pendingIq),
                hasToken := s.cfg.token } := by
   simp [cutAndReconnect, run, step, hc, onSocketDisconnected, hr, closeSession, handleStart]
@@ -203,7 +203,7 @@ theorem ph_features_saslPlain {c enc auth sess s} (h : Ph c enc .idle auth sess 
   obtain ⟨h1, h2, h3, h4, h5, h6, h7, h8⟩ := h
   have e : step s (.recv (.features { mechs := some .plain })) =
       ({ s with listener := .sasl .plain true }, [send s (.saslAuth .plain)]) := by
-    simp [step, recv, h2, h3, hh, dispatch, h5, idleHandle, handleFeatures, hst, h1, hsasl, startSasl, mechUsable, hplain]
+    simp [step, recv, h2, h3, hh, dispatch, h5, idleHandle, El.isStanza, idleHandle', handleFeatures, hst, h1, hsasl, startSasl, mechUsable, hplain]
   rw [e]
   exact ⟨⟨h1, h2, h3, h4, rfl, h6, h7, h8⟩, hh⟩
 
@@ -212,7 +212,7 @@ theorem ph_saslSuccess {c enc fr auth sess s} (h : Ph c enc (.sasl .plain fr) au
   obtain ⟨h1, h2, h3, h4, h5, h6, h7, h8⟩ := h
   have e : (step s (.recv (.saslSuccess true))).1 =
       { s with authenticated := true, streamIdSet := false, streamVersionSet := false, listener := .idle,
-               smEnabled := false, smResumed := false } := by
+               bind2Bound := false, smEnabled := false, smResumed := false } := by
     simp [step, recv, h2, h3, hh, dispatch, h5, saslHandle, handleStart, successOk]
   rw [e]
   exact ⟨⟨h1, h2, h3, h4, rfl, rfl, h7, h8⟩, hh⟩
@@ -226,7 +226,7 @@ theorem ph_features_bind {c enc auth sess s} (h : Ph c enc .idle auth sess s) (h
   obtain ⟨h1, h2, h3, h4, h5, h6, h7, h8⟩ := h
   have e : (step s (.recv (.features { bind := true }))).1 =
       { s with bindAvail := true, smAvail := false, csiAvail := false, listener := .bind } := by
-    simp [step, recv, h2, h3, hh, dispatch, h5, idleHandle, handleFeatures, hst, startBind]
+    simp [step, recv, h2, h3, hh, dispatch, h5, idleHandle, El.isStanza, idleHandle', handleFeatures, hst, startBind]
   rw [e]
   exact ⟨⟨h1, h2, h3, h4, rfl, h6, h7, h8⟩, hh, rfl⟩
 
@@ -287,7 +287,7 @@ theorem ph_features_starttls {c auth sess s} (h : Ph c false .idle auth sess s) 
     unfold handleStarttls
     simp [h4, h1, hl, ht]
   have e : step s (.recv (.features { tls := .optional })) = ({ s with listener := .starttls }, [send s .startTls]) := by
-    simp [step, recv, h2, h3, hh, dispatch, h5, idleHandle, handleFeatures, hst]
+    simp [step, recv, h2, h3, hh, dispatch, h5, idleHandle, El.isStanza, idleHandle', handleFeatures, hst]
   rw [e]
   exact ⟨⟨h1, h2, h3, h4, rfl, h6, h7, h8⟩, hh⟩
 
@@ -296,7 +296,7 @@ theorem ph_proceed {c auth sess s} (h : Ph c false .starttls auth sess s) (hh : 
   obtain ⟨h1, h2, h3, h4, h5, h6, h7, h8⟩ := h
   have e : (step s (.recv (.proceed true))).1 =
       { s with encrypted := true, headerSeen := false, listener := .idle, streamIdSet := false, streamVersionSet := false,
-               smEnabled := false, smResumed := false } := by
+               bind2Bound := false, smEnabled := false, smResumed := false } := by
     simp [step, recv, h2, h3, hh, dispatch, h5, starttlsHandle, handleStart]
   rw [e]
   exact ⟨h1, h2, h3, rfl, rfl, h6, h7, h8⟩
@@ -327,7 +327,7 @@ theorem ph_features_sasl2 {c enc auth sess s} (h : Ph c enc .idle auth sess s) (
   obtain ⟨h1, h2, h3, h4, h5, h6, h7, h8⟩ := h
   have e : (step s (.recv (.features { sasl2 := some s2z }))).1 =
       { s with bind2InactiveSet := s.cfg.inactive, tokenRequested := false, listener := .sasl2 .plain true } := by
-    simp [step, recv, h2, h3, hh, dispatch, h5, idleHandle, handleFeatures, hst, h1, hs2, startSasl2, s2z, mechUsable, hplain]
+    simp [step, recv, h2, h3, hh, dispatch, h5, idleHandle, El.isStanza, idleHandle', handleFeatures, hst, h1, hs2, startSasl2, s2z, mechUsable, hplain]
   rw [e]
   exact ⟨⟨h1, h2, h3, h4, rfl, h6, h7, h8⟩, hh⟩
 
@@ -356,7 +356,7 @@ theorem ph_features_sm_done {c enc auth s} (h : Ph c enc .idle auth false s) (hh
   obtain ⟨h1, h2, h3, h4, h5, h6, h7, h8⟩ := h
   have e : step s (.recv (.features { sm := true })) =
       openSession { s with bindAvail := false, smAvail := true, csiAvail := false } := by
-    simp [step, recv, h2, h3, hh, dispatch, h5, idleHandle, handleFeatures, hst, hsm]
+    simp [step, recv, h2, h3, hh, dispatch, h5, idleHandle, El.isStanza, idleHandle', handleFeatures, hst, hsm]
   rw [e]
   have sp := openSession_spec { s with bindAvail := false, smAvail := true, csiAvail := false }
   have co := sp.2.2.1
@@ -497,7 +497,7 @@ theorem out_features_saslPlain {c enc auth sess s} (h : Ph c enc .idle auth sess
   have hst := noStarttls h { mechs := some .plain } rfl htls
   obtain ⟨h1, h2, h3, h4, h5, h6, h7, h8⟩ := h
   exact ⟨.saslAuth .plain, by
-    simp [step, recv, h2, h3, hh, dispatch, h5, idleHandle, handleFeatures, hst, h1, hsasl, startSasl, mechUsable, hplain]⟩
+    simp [step, recv, h2, h3, hh, dispatch, h5, idleHandle, El.isStanza, idleHandle', handleFeatures, hst, h1, hsasl, startSasl, mechUsable, hplain]⟩
 
 theorem out_saslSuccess {c enc fr auth sess s} (h : Ph c enc (.sasl .plain fr) auth sess s) (hh : s.headerSeen = true) :
     nC (step s (.recv (.saslSuccess true))).2 = 0 ∧ nD (step s (.recv (.saslSuccess true))).2 = 0 := by
@@ -514,7 +514,7 @@ theorem out_features_bind {c enc auth sess s} (h : Ph c enc .idle auth sess s) (
   obtain ⟨h1, h2, h3, h4, h5, h6, h7, h8⟩ := h
   have e : (step s (.recv (.features { bind := true }))).2 =
       [send { s with bindAvail := true, smAvail := false, csiAvail := false } .bind] := by
-    simp [step, recv, h2, h3, hh, dispatch, h5, idleHandle, handleFeatures, hst, startBind]
+    simp [step, recv, h2, h3, hh, dispatch, h5, idleHandle, El.isStanza, idleHandle', handleFeatures, hst, startBind]
   rw [e]
   simp
 
@@ -624,6 +624,9 @@ theorem handleFeatures_done (s : St) (f : Features) (hl : s.listener = .idle) : 
 theorem idleHandle_done (s : St) (e : El) (hl : s.listener = .idle) : Done s (idleHandle s e) := by
   unfold idleHandle
   split
+  · exact done_of_zero (by simp)
+  unfold idleHandle'
+  split
   · exact handleFeatures_done s _ hl
   all_goals first | exact done_of_zero (by simp) | (split <;> exact done_of_zero (by simp))
 
@@ -634,6 +637,16 @@ theorem nonSaslHandle_done (s : St) (e : El) : Done s (nonSaslHandle s e) := by
   unfold nonSaslHandle
   split
   · split <;> exact done_of_zero (by simp)
+  · exact done_of_zero (by simp)
+  · exact done_of_zero (by simp)
+
+theorem nonSaslResultHandle_done (s : St) (e : El) : Done s (nonSaslResultHandle s e) := by
+  unfold nonSaslResultHandle
+  split
+  · have := done_open s { s with authenticated := true } [] rfl rfl
+    simpa using this
+  · have := done_open s { s with authenticated := true } [] rfl rfl
+    simpa using this
   · exact done_of_zero (by simp)
   · exact done_of_zero (by simp)
 
@@ -715,6 +728,7 @@ theorem dispatch_done (s : St) (e : El) : Done s (dispatch s e) := by
   · rename_i hl; exact idleHandle_done s e hl
   · exact starttlsHandle_done s e
   · exact nonSaslHandle_done s e
+  · exact nonSaslResultHandle_done s e
   · exact saslHandle_done s _ _ e
   · exact done_of_zero (by simp)
   · exact sasl2Handle_done s _ _ e
@@ -755,9 +769,6 @@ theorem step_done (s : St) (e : Ev) :
             · exact Or.inl h
             · exact Or.inr ⟨h.1, h.2.1, h.2.2.1, h.2.2.2.trans hc⟩
 
-theorem handleStream_session (s : St) (v i : Bool) : (handleStream s v i).1.sessionStarted = s.sessionStarted := by
-  unfold handleStream startNonSaslAuth; dsimp only; cnt_crush
-
 /-! ### session flag versus `connected` / `disconnected` signals -/
 
 @[simp] theorem nD_closeSession (s : St) : nD (closeSession s).2 = 1 := by unfold closeSession; simp
@@ -765,8 +776,6 @@ theorem handleStream_session (s : St) (v i : Bool) : (handleStream s v i).1.sess
 @[simp] theorem nD_failAuth (s : St) : nD (failAuth s).2 = nD (disconnectFromHost s).2 := by unfold failAuth; simp
 @[simp] theorem nD_handleStart (s : St) : nD (handleStart s).2 = 0 := by unfold handleStart; simp
 @[simp] theorem nD_startNonSaslAuth (s : St) : nD (startNonSaslAuth s).2 = 0 := by unfold startNonSaslAuth; simp
-@[simp] theorem nD_handleStream (s : St) (v i : Bool) : nD (handleStream s v i).2 = 0 := by
-  unfold handleStream; dsimp only; cnt_crush
 @[simp] theorem nD_startBind (s : St) : nD (startBind s).2 = 0 := by unfold startBind; simp
 @[simp] theorem nD_startSmEnable (s : St) : nD (startSmEnable s).2 = 0 := by unfold startSmEnable; simp
 @[simp] theorem nD_startSmResume (s : St) : nD (startSmResume s).2 = 0 := by unfold startSmResume; simp
@@ -792,7 +801,10 @@ theorem onSocketDisconnected_effD (s : St) (hc : s.conn = .disconnected) :
   unfold onSocketDisconnected
   dsimp only
   split
-  · exact effD_quiet (by simp) rfl
+  · split
+    · exact Or.inr ⟨by simp, by simp, rfl, by simp⟩
+    · rename_i hss
+      exact effD_quiet (by simp) rfl
   · exact closeSession_effD { s with authenticated := false } (by simp [hc])
 
 theorem socketClose_effD (s : St) : EffD s.sessionStarted (socketClose s) := by
@@ -874,8 +886,22 @@ theorem handleFeatures_effD (s : St) (f : Features) : EffD s.sessionStarted (han
               · exact effD_quiet (by simp) rfl
               · exact openSession_effD _ _
 
+theorem handleStream_effD (s : St) (v i : Bool) : EffD s.sessionStarted (handleStream s v i) := by
+  unfold handleStream
+  dsimp only
+  split
+  · exact effD_quiet (by simp) rfl
+  · split
+    · split
+      · exact disconnectFromHost_effD { s with streamIdSet := s.streamIdSet || i, streamVersionSet := v }
+      · exact effD_quiet (by simp) rfl
+    · exact effD_quiet (by simp) rfl
+
 theorem idleHandle_effD (s : St) (e : El) : EffD s.sessionStarted (idleHandle s e) := by
   unfold idleHandle
+  split
+  · exact reject_effD s
+  unfold idleHandle'
   split
   · exact handleFeatures_effD s _
   · exact socketClose_effD { s with redirect := true }
@@ -903,6 +929,14 @@ theorem nonSaslHandle_effD (s : St) (e : El) : EffD s.sessionStarted (nonSaslHan
   · split
     · exact effD_quiet (by simp) rfl
     · exact effD_relisten .idle (disconnectFromHost_effD s)
+  · exact effD_relisten .idle (disconnectFromHost_effD s)
+  · exact reject_effD s
+
+theorem nonSaslResultHandle_effD (s : St) (e : El) : EffD s.sessionStarted (nonSaslResultHandle s e) := by
+  unfold nonSaslResultHandle
+  split
+  · exact Or.inl ⟨by simp, fun hc => by simp at hc⟩
+  · exact Or.inl ⟨by simp, fun hc => by simp at hc⟩
   · exact effD_relisten .idle (disconnectFromHost_effD s)
   · exact reject_effD s
 
@@ -986,6 +1020,7 @@ theorem dispatch_effD (s : St) (e : El) : EffD s.sessionStarted (dispatch s e) :
   · exact idleHandle_effD s e
   · exact starttlsHandle_effD s e
   · exact nonSaslHandle_effD s e
+  · exact nonSaslResultHandle_effD s e
   · exact saslHandle_effD s _ _ e
   · exact reject_effD s
   · exact sasl2Handle_effD s _ _ e
@@ -1016,7 +1051,7 @@ theorem step_effD (s : St) (e : Ev) : EffD s.sessionStarted (step s e) := by
     split
     · exact effD_quiet (by simp) rfl
     · split
-      · exact effD_quiet (by simp) (by simp [handleStream_session])
+      · exact handleStream_effD { s with headerSeen := true } _ _
       · split
         · exact effD_quiet (by simp) rfl
         · split
@@ -1025,16 +1060,18 @@ theorem step_effD (s : St) (e : Ev) : EffD s.sessionStarted (step s e) := by
 
 /-! ### at most one `connected` between two `disconnected` -/
 
-/-- **Conformance hypothesis**: the server sends no stream features while a session is established -/
-def noFeaturesInSession (s : St) : Ev → Prop
+/-- **Conformance hypothesis**: while a session is established the server sends neither a stream header nor stream
+features (both restart negotiation) -/
+def noNegotiationInSession (s : St) : Ev → Prop
   | .recv (.features _) => s.sessionStarted = false
+  | .recv (.header _ _) => s.sessionStarted = false
   | _ => True
 
-/-- while a session is flagged, the listener is the idle one (or the XEP-0078 one, which can never open a session) -/
-def JP (s : St) : Prop := s.sessionStarted = true → (s.listener = .idle ∨ s.listener = .nonSaslFields)
+/-- while a session is flagged, the listener is the idle one -/
+def JP (s : St) : Prop := s.sessionStarted = true → s.listener = .idle
 
 theorem onSocketDisconnected_listener (s : St) : (onSocketDisconnected s).1.listener = s.listener := by
-  unfold onSocketDisconnected closeSession; dsimp only; split <;> rfl
+  unfold onSocketDisconnected closeSession; dsimp only; (repeat' split) <;> rfl
 theorem socketClose_listener (s : St) : (socketClose s).1.listener = s.listener := by
   unfold socketClose; split
   · simp [onSocketDisconnected_listener]
@@ -1043,14 +1080,14 @@ theorem disconnectFromHost_listener (s : St) : (disconnectFromHost s).1.listener
   unfold disconnectFromHost; simp [socketClose_listener]
 theorem reject_listener (s : St) : (reject s).1.listener = s.listener := by
   unfold reject; simp [disconnectFromHost_listener]
-theorem handleStream_listener (s : St) (v i : Bool) :
-    (handleStream s v i).1.listener = s.listener ∨ (handleStream s v i).1.listener = .nonSaslFields := by
-  unfold handleStream startNonSaslAuth; dsimp only; cnt_crush
 
 /-- the idle listener, anything but features: listener stays idle, nothing is opened -/
 theorem idleHandle_nf (s : St) (e : El) (hl : s.listener = .idle) (hnf : ∀ f, e ≠ .features f) :
     (idleHandle s e).1.listener = .idle ∧ nC (idleHandle s e).2 = 0 := by
   unfold idleHandle
+  split
+  · exact ⟨by rw [reject_listener]; exact hl, by simp⟩
+  unfold idleHandle'
   split
   · rename_i f; exact absurd rfl (hnf f)
   · exact ⟨by simp [socketClose_listener, hl], by simp⟩
@@ -1065,18 +1102,7 @@ theorem idleHandle_nf (s : St) (e : El) (hl : s.listener = .idle) (hnf : ∀ f, 
   · exact ⟨hl, by simp⟩
   · exact ⟨by rw [reject_listener]; exact hl, by simp⟩
 
-theorem nonSaslHandle_j (s : St) (e : El) (hl : s.listener = .nonSaslFields) :
-    ((nonSaslHandle s e).1.listener = .idle ∨ (nonSaslHandle s e).1.listener = .nonSaslFields) ∧
-    nC (nonSaslHandle s e).2 = 0 := by
-  unfold nonSaslHandle
-  split
-  · split
-    · exact ⟨Or.inl rfl, by simp⟩
-    · exact ⟨Or.inl rfl, by simp⟩
-  · exact ⟨Or.inl rfl, by simp⟩
-  · exact ⟨Or.inr (by rw [reject_listener]; exact hl), by simp⟩
-
-theorem step_j (s : St) (e : Ev) (hj : JP s) (hconf : noFeaturesInSession s e) :
+theorem step_j (s : St) (e : Ev) (hj : JP s) (hconf : noNegotiationInSession s e) :
     JP (step s e).1 ∧ (nC (step s e).2 = 1 → s.sessionStarted = false) := by
   cases hs : s.sessionStarted with
   | false =>
@@ -1088,15 +1114,14 @@ theorem step_j (s : St) (e : Ev) (hj : JP s) (hconf : noFeaturesInSession s e) :
         rw [hs] at this
         rw [this] at hpost; cases hpost
       · rw [he.2.2.1] at hpost; cases hpost
-    · exact Or.inl hd.2.1
+    · exact hd.2.1
   | true =>
     have hl := hj hs
-    have key : ((step s e).1.sessionStarted = true → ((step s e).1.listener = .idle ∨ (step s e).1.listener = .nonSaslFields)) ∧
-        nC (step s e).2 = 0 := by
+    have key : ((step s e).1.sessionStarted = true → (step s e).1.listener = .idle) ∧ nC (step s e).2 = 0 := by
       cases e with
       | connectToServer => simp only [step]; split <;> exact ⟨fun _ => hl, by simp⟩
       | socketConnected => simp only [step]; split
-                           · exact ⟨fun _ => Or.inl rfl, by simp⟩
+                           · exact ⟨fun _ => rfl, by simp⟩
                            · exact ⟨fun _ => hl, by simp⟩
       | socketError => exact ⟨fun _ => hl, by simp [step]⟩
       | socketDisconnected =>
@@ -1109,36 +1134,28 @@ theorem step_j (s : St) (e : Ev) (hj : JP s) (hconf : noFeaturesInSession s e) :
         have hc := (sendStanza_core s (.iqRequest false)).1.listener
         split
         · exact ⟨fun _ => by rw [hc]; exact hl, by simp⟩
-        · exact ⟨fun _ => by show (sendStanza s (.iqRequest false)).1.listener = _ ∨ _; rw [hc]; exact hl, by simp⟩
+        · exact ⟨fun _ => by show (sendStanza s (.iqRequest false)).1.listener = _; rw [hc]; exact hl, by simp⟩
       | recv el =>
         simp only [step]
         unfold recv
         split
         · exact ⟨fun _ => hl, by simp⟩
         · split
-          · rename_i v i
-            refine ⟨fun _ => ?_, by simp⟩
-            rcases handleStream_listener { s with headerSeen := true } v i with h | h
-            · rw [h]; exact hl
-            · exact Or.inr h
+          · have : s.sessionStarted = false := hconf
+            rw [hs] at this; cases this
           · split
             · exact ⟨fun _ => hl, by simp⟩
             · split
               · exact ⟨fun _ => by rw [disconnectFromHost_listener]; exact hl, by simp⟩
-              · rename_i hnh _ hns
-                unfold dispatch
-                rcases hl with hl | hl
-                · rw [hl]
-                  have hnf : ∀ f, el ≠ .features f := by
-                    intro f hf
-                    subst hf
-                    have : s.sessionStarted = false := hconf
-                    rw [hs] at this; cases this
-                  have := idleHandle_nf s el hl hnf
-                  exact ⟨fun _ => Or.inl this.1, this.2⟩
-                · rw [hl]
-                  have := nonSaslHandle_j s el hl
-                  exact ⟨fun _ => this.1, this.2⟩
+              · unfold dispatch
+                rw [hl]
+                have hnf : ∀ f, el ≠ .features f := by
+                  intro f hf
+                  subst hf
+                  have : s.sessionStarted = false := hconf
+                  rw [hs] at this; cases this
+                have := idleHandle_nf s el hl hnf
+                exact ⟨fun _ => this.1, this.2⟩
     exact ⟨key.1, fun h1 => by rw [key.2] at h1; cases h1⟩
 
 /-- scanning a trace: `open` tells whether a session is currently reported; `false` as soon as `connected` is reported while
@@ -1211,7 +1228,7 @@ theorem alt_oneC (os : List Out) (hC : nC os = 1) (hD : nD os = 0) :
       | iqDone b => simp at hC hD; simpa [alt, altEnd] using ih hC hD
 
 /-- one step keeps the trace well-bracketed and the scan state equal to the session flag -/
-theorem step_alt (s : St) (e : Ev) (hj : JP s) (hconf : noFeaturesInSession s e) :
+theorem step_alt (s : St) (e : Ev) (hj : JP s) (hconf : noNegotiationInSession s e) :
     alt s.sessionStarted (step s e).2 = true ∧ altEnd s.sessionStarted (step s e).2 = (step s e).1.sessionStarted := by
   have hJ := step_j s e hj hconf
   rcases step_done s e with hd | hd
@@ -1228,7 +1245,7 @@ theorem step_alt (s : St) (e : Ev) (hj : JP s) (hconf : noFeaturesInSession s e)
       exact ⟨a.1, by rw [a.2, hd.2.2.1]⟩
     · rw [he.2.1] at hd; cases hd.1
 
-theorem run_alt (evs : List Ev) (s : St) (hj : JP s) (hconf : Along noFeaturesInSession s evs) :
+theorem run_alt (evs : List Ev) (s : St) (hj : JP s) (hconf : Along noNegotiationInSession s evs) :
     alt s.sessionStarted (run s evs).2 = true := by
   induction evs generalizing s with
   | nil => rfl
